@@ -89,8 +89,22 @@ def _child(sc, wfd):
         import runpy
         code = None
         try:
-            runpy.run_path(SCRIPT, run_name='__main__')
-            code = 0
+            entry = sc.get('entry', 'script')
+            if entry == 'script':                  # ./ssh-audit.py
+                runpy.run_path(SCRIPT, run_name='__main__')
+                code = 0
+            elif entry == 'module':                # python -m ssh_audit
+                sys.modules.pop('ssh_audit.__main__', None)
+                runpy.run_module('ssh_audit', run_name='__main__', alter_sys=True)
+                code = 0
+            elif entry == 'inner':                 # python -m ssh_audit.ssh_audit
+                runpy.run_module('ssh_audit.ssh_audit', run_name='__main__', alter_sys=True)
+                code = 0
+            elif entry == 'console':               # the console script of setup.cfg: sys.exit(main())
+                import importlib
+                sys.exit(importlib.import_module('ssh_audit.ssh_audit').main())
+            else:
+                raise ValueError('unknown entry %r' % entry)
         except SystemExit as e:
             code = e.code
             if code is None:
